@@ -56,6 +56,9 @@ func cmdVerify(args []string) {
 	fs.BoolVar(&debugPanics, "panic", false, "do not recover translator panics")
 	fs.Parse(args)
 	start := time.Now()
+	if os.Getenv("GOVC_BASELINE_LOCALS") != "" {
+		loadBaselineLocals() // rename recovery as in `check` (debugging aid)
+	}
 	prog, err := LoadProgram(*repo)
 	if err != nil {
 		fmt.Println("load error:", err)
